@@ -124,7 +124,7 @@ CLAIMS = {
         "text": "Kernel-checked (the part that is logic): a weighted basis matrix with a non-finite entry never reaches the SVD and leaves a rejected state (c08_nonfinite_absent); set_params and build do not depend on what the SVD routine does on non-finite matrices, so a routine that loops there is never entered (c08_svd_guard, c08_build_guard); "
                 "a decomposition whose singular values are not all finite (nalgebra produces NaN singular values for finite matrices of extreme dynamic range) is discarded before anything sorts or uses it, and a present cache always holds finite singular values of a finite matrix (c08_nonfinite_sigma_absent, c08_cache_finite); "
                 "the optimizer model is total, never exhausts its fuel and stops after at most max(patience*(P+1),2) evaluations for EVERY behaviour of problem and numerical sub-routines (c08_lm_total, proved by an invariant over LM.run); a problem without residuals makes fit fail with User(residuals) without further model calls (c08_nonfinite_fails); "
-                "the usize subtraction of the statistics cannot panic in either profile (C12 Shape.c12_no_panic); builder-made models cannot hit their two panic sites (C16 c16_args_by_name). Tie: robustness stream in two build profiles under a watchdog; SOURCE CENSUS (tools/source_census.py, census/reference.json): every panic!/assert*!/debug_assert*!/unreachable!/unwrap/expect site of the non-test source is extracted from the repository on every run and compared (by file, function, kind and normalised text, never by line) with the reviewed list the shape model transcribes - a panic site the model does not have breaks the tie. SHAPE / EFFECTS MODEL (Core/ShapeModel.lean, Props/C08Shape.lean): every run-time dimension check of nalgebra (gemm, subtraction, copy_from, ad_mul in solve), varpro's own assert!s (diagonal weights, concat_colwise, extract_range, probability), debug_assert!s and the usize subtraction are transcribed as explicit panic outcomes over matrix SHAPES; for a model whose eval / eval_partial_deriv give output_len x base_function_count and a builder-made problem, set_params, jacobian (any column order), best_fit, try_calculate (both arithmetic profiles, debug assertions on or off, all sizes incl. under-determined, singular or not), the variance accessors and confidence_band_radius with a valid probability never panic (c08_set_params_no_panic, c08_jacobian_no_panic, c08_best_fit_no_panic, c08_try_calculate_no_panic, c08_accessors_no_panic); the only panic is the documented one (c08_band_panic_iff). A contract-violating shape does panic in the model (example), i.e. the checks are really transcribed.",
+                "the usize subtraction of the statistics cannot panic in either profile (C12 Shape.c12_no_panic); builder-made models cannot hit their two panic sites (C16 c16_args_by_name). Tie: robustness stream in two build profiles under a watchdog; SOURCE CENSUS (tools/source_census.py, census/reference.json): every panic!/assert*!/debug_assert*!/unreachable!/unwrap/expect site of the non-test source is extracted from the repository on every run and compared (by file, function, kind and normalised text, never by line) with the reviewed list the shape model transcribes - a panic site the model does not have breaks the tie. SHAPE / EFFECTS MODEL (Core/ShapeModel.lean, Props/C08Shape.lean): every run-time dimension check of nalgebra (gemm, subtraction, copy_from, ad_mul in solve), varpro's own assert!s (diagonal weights, concat_colwise, extract_range, probability), debug_assert!s and the usize subtraction are transcribed as explicit panic outcomes over matrix SHAPES; for a model whose eval / eval_partial_deriv give output_len x base_function_count and a builder-made problem, set_params, jacobian (any column order), best_fit, try_calculate (both arithmetic profiles, debug assertions on or off, all sizes incl. under-determined, singular or not), the variance accessors and confidence_band_radius with a valid probability never panic (c08_set_params_no_panic, c08_jacobian_no_panic, c08_best_fit_no_panic, c08_try_calculate_no_panic, c08_accessors_no_panic); the only panic is the documented one (c08_band_panic_iff). That the checks are really transcribed is itself checked against the code: the SHAPE stream enumerates contract-violating models (wrong rows / columns / transposed / failing, per call) and compares the panic / absent / present outcome of build(), residuals() and jacobian() of the real code with the shape model's prediction, case by case (all agree on the unchanged tree).",
         "note": "Trusted: as C01/C04. NOT proved (runtime, sampled only): termination of nalgebra's SVD iteration on finite matrices, absence of panics inside nalgebra / levenberg-marquardt / distrs on extreme finite values. Defects repaired by fix: commits 1b6dc44 (SVD on non-finite input never returned) and 88a7c8e (NaN singular values of a finite matrix of extreme dynamic range made set_params / fit panic in the sort; found by the thorough tier).",
     },
     "C05": {
